@@ -154,7 +154,7 @@ func inRtcm(fnKey string) bool { return strings.Contains(fnKey, "/rtcm/") }
 
 func safetyOwner(prop, fnKey string) bool {
 	if inRtcm(fnKey) {
-		return prop == "C07"
+		return prop == "C07" || contains(propSupport[prop], "C07") // total correctness inside the cone of every library property
 	}
 	return pipelineProps[prop]
 }
@@ -173,6 +173,8 @@ var extraRoots = map[string][]string{
 }
 
 func init() {
+	// C19: the proxy's parser goroutine (started in an uncontracted main) must survive every input
+	extraRoots["C19"] = []string{"(*github.com/goblimey/go-ntrip/rtcm/handler.Handler).HandleMessages"}
 	// C15 (determinism, no hidden state) ranges over the same cone as C07
 	extraRoots["C15"] = extraRoots["C07"]
 }
@@ -525,6 +527,27 @@ func runProperty(eng *Engine, prop, tier string, opts solveOpts, evidence, repla
 	var assumedList []string
 	for _, a := range sortedKeys(assumed) {
 		assumedList = append(assumedList, a)
+	}
+	// preconditions are assumed at function entry and are obligations of the call sites that are
+	// under contract; for an entry point (no caller under contract) they are hypotheses of the result
+	{
+		seenPre := map[string]bool{}
+		for _, k := range order {
+			ct := eng.lib.Contracts[k]
+			if ct == nil {
+				continue
+			}
+			probe := &Unit{prop: prop}
+			for _, rq := range ct.Requires {
+				if probe.active(rq.Props) || contains(rq.Props, "C07") {
+					t := "precondition of " + shortKey(k) + " (assumed at entry, checked at call sites under contract): " + trunc(rq.Text, 200)
+					if !seenPre[t] {
+						seenPre[t] = true
+						assumedList = append(assumedList, t)
+					}
+				}
+			}
+		}
 	}
 	assumedList = append(assumedList, propertyAssumptions[prop]...)
 	assumedList = append(assumedList,
